@@ -7,7 +7,7 @@ import numpy as np
 from props.common import load_impl, exc_name
 
 RULE = ("for a range of scikit-learn estimators (1-NN, 3-NN, logistic regression, decision tree, SVC, SVC(probability), LinearSVC, GaussianNB, small random forest, "
-        "scaler+PCA+logistic pipeline; a QuantileTransformer pipeline that emits UserWarnings on small coalitions for the scoring loops) x {accuracy on 3 classes, accuracy with a training class absent from the validation labels (null score exactly 0), ROC-AUC on binary labels} x EVERY subset of 6 training rows quick / 8 thorough (empty, single-row, "
+        "scaler+PCA+logistic pipeline, a QuantileTransformer+1-NN pipeline that warns (UserWarning) on every subset smaller than the full set; a QuantileTransformer pipeline that emits UserWarnings on small coalitions for the scoring loops) x {accuracy on 3 classes, accuracy with a training class absent from the validation labels (null score exactly 0), ROC-AUC on binary labels} x EVERY subset of 6 training rows quick / 8 thorough (empty, single-row, "
         "single-class, too small included): (1) the raw outcome class of fit+predict+metric is recorded under the harness's own try/except, fed to the Lean model "
         "of the two handler layers (Outcome.layer1/caught) and the predicted value / raise-or-not is compared with the real utility call; (2) the real call must "
         "return a finite float and never raise; (3) bruteforce and montecarlo over the same data return finite vectors. Non-trivial = the subset is degenerate "
@@ -27,6 +27,10 @@ def estimators(q):
     es = [("knn1", KNeighborsClassifier(1)), ("knn3", KNeighborsClassifier(3)), ("logreg", LogisticRegression(max_iter=200)),
           ("tree", DecisionTreeClassifier(random_state=0)), ("svc", SVC()), ("gnb", GaussianNB()),
           ("pipe", Pipeline([("sc", StandardScaler()), ("pca", PCA(n_components=2)), ("lr", LogisticRegression(max_iter=200))]))]
+    from sklearn.preprocessing import QuantileTransformer
+    # evaluates silently on the full set, WARNS (UserWarning: more quantiles than samples) on every smaller subset: a warning is not a failure,
+    # the utility must return that subset's score
+    es.append(("warnpipe", Pipeline([("qt", QuantileTransformer(n_quantiles=5)), ("knn", KNeighborsClassifier(1))])))
     if not q:
         es += [("svc_proba", SVC(probability=True, random_state=0)), ("linsvc", LinearSVC(max_iter=500)),
                ("forest", RandomForestClassifier(n_estimators=5, random_state=0))]
@@ -40,6 +44,7 @@ def raw_outcome(model, metric_kind, Xs, ys, Xv, yv, classes):
     with warnings.catch_warnings():
         warnings.simplefilter("error", category=RuntimeWarning)
         warnings.simplefilter("ignore", category=FutureWarning)
+        warnings.simplefilter("ignore", category=UserWarning)       # as in the utility: a UserWarning is not escalated there
         try:
             np.random.seed(7)
             m = clone(model)
